@@ -155,6 +155,7 @@ func c20(r *core.Report) {
 	c20LockCallback(r)
 	c20VisitedMonotone(r)
 	c20TypedNil(r)
+	c20DrillNil(r)
 	resetScope(r, "C20.resetscope")
 	crashPanic(r, csAll, map[string]panicExcuse{
 		"openapi3.readableType": {
